@@ -153,10 +153,7 @@ def load_performance_midi(
             if isinstance(msg, mido.MetaMessage):
                 if msg.type == "set_tempo":
                     mpq = msg.tempo
-                    if (
-                        tempo_changes[-1][1] != mpq
-                    ):  # only add new tempo if it's different from the last one
-                        tempo_changes.append((ttick, mpq))
+                    tempo_changes.append((ttick, mpq))
                     time_conversion_factor = mpq / (ppq * 10**6)
                 elif msg.type == "time_signature":
                     time_signatures.append(
@@ -292,6 +289,16 @@ def load_performance_midi(
             )
 
             pps.append(pp)
+
+    # tempo changes hold for the whole file from their tick on, whichever track
+    # they are in: order them by tick (stable, so that of several changes at one
+    # tick the last one read wins) and keep only the actual changes
+    tempo_changes.sort(key=lambda x: x[0])
+    tempo_changes = [
+        tc
+        for k, tc in enumerate(tempo_changes)
+        if k == 0 or tc[1] != tempo_changes[k - 1][1]
+    ]
 
     # adjust timing of events based on tempo changes
     for pp in pps:
